@@ -81,6 +81,15 @@ CLAIMED = {
              'ending exactly at / one past zone and GLOBAL ends and includes issued from inside a zone; rejection expected iff '
              'a byte leaves its zone/GLOBAL or a zone declaration is invalid, else the image must equal the model map.',
         note='Trusted: vf/model/layout.py zone rules; parked cursors outside a zone without bytes are DONT_CARE.'),
+    'C06': dict(
+        category='exploration', design_ref='DESIGN.md §3 C06',
+        technique='runtime monitoring: lexical-scope reference model vs `.2byte <ref>` probe bytes of real CLI runs over 1..4 '
+                  'files; LabelScope lookup-log probe',
+        text='Generated multi-file programs reuse the same local names across regions/files and the same file-label names across '
+             'files; every definition sits at a distinct address so probe bytes identify the definition used; one planted illegal '
+             'site per program (cross-region / cross-file / after-.org|.memzone reference, undefined name, duplicate per scope, '
+             'orphan local, register/keyword name) must be rejected.',
+        note='Trusted: the scope model in vf/oracles/c06.py (resolve_program) and vf/model/layout.py.'),
     'C07': dict(
         category='exploration', design_ref='DESIGN.md §3 C07',
         technique='runtime monitoring: reference-model oracle (exact-arithmetic evaluator + independent grammar recogniser) '
